@@ -73,6 +73,9 @@ func evsString(es []ev) string {
 type leafSpec struct {
 	Tags int        `json:"tags"`
 	Recs [][2]int64 `json:"recs"`
+	// records (indices) whose Get fails with an error that is not io.EOF; Once: such a record fails once, then it can be read
+	Bad  []int `json:"bad,omitempty"`
+	Once bool  `json:"once,omitempty"`
 }
 
 type treeSpec struct {
@@ -89,8 +92,22 @@ func (l leafSpec) line() string {
 	return s
 }
 
+func (t *treeSpec) hasBad() bool {
+	if t.Leaf != nil {
+		return len(t.Leaf.Bad) > 0
+	}
+	return t.A.hasBad() || t.B.hasBad()
+}
+
 func (t *treeSpec) line() string {
 	if t.Leaf != nil {
+		if len(t.Leaf.Bad) > 0 {
+			s := fmt.Sprintf("E %s %d", b01(!t.Leaf.Once), len(t.Leaf.Bad))
+			for _, b := range t.Leaf.Bad {
+				s += fmt.Sprintf(" %d", b)
+			}
+			return s + " " + t.Leaf.line()
+		}
 		return t.Leaf.line()
 	}
 	return "M " + t.A.line() + " " + t.B.line()
@@ -144,7 +161,11 @@ type growIt struct {
 	les  []model.LogEvent
 	idx  int
 	bkwd bool
+	bad  map[int]bool // records that cannot be read
+	once bool         // … only the first time
 }
+
+var errUnreadable = fmt.Errorf("verif: the record cannot be read")
 
 func (g *growIt) Next(ctx context.Context) {
 	if g.bkwd {
@@ -166,6 +187,12 @@ func (g *growIt) Get(ctx context.Context) (records.Record, error) {
 		g.idx = 0
 	}
 	if g.idx < len(g.les) && g.idx >= 0 {
+		if g.bad[g.idx] {
+			if g.once {
+				delete(g.bad, g.idx)
+			}
+			return nil, errUnreadable
+		}
 		buf := make([]byte, g.les[g.idx].WritableSize())
 		g.les[g.idx].Marshal(buf)
 		return buf, nil
@@ -179,7 +206,10 @@ func (g *growIt) CurrentPos() records.IteratorPos { return g.idx }
 // growTree builds the real mixer tree over growable leaves; leaves are returned left to right
 func growTree(t *treeSpec, leaves *[]*growIt) model.Iterator {
 	if t.Leaf != nil {
-		g := &growIt{les: t.Leaf.logEvents()}
+		g := &growIt{les: t.Leaf.logEvents(), bad: map[int]bool{}, once: t.Leaf.Once}
+		for _, b := range t.Leaf.Bad {
+			g.bad[b] = true
+		}
 		*leaves = append(*leaves, g)
 		return (&model.LogEventIterator{}).Wrap(tagLine(t.Leaf.Tags), g)
 	}
@@ -341,6 +371,32 @@ func getEv(it model.Iterator) (ev, string) {
 
 // drainIt reads until EOF (at most max events: a changed implementation must not hang the harness)
 func drainIt(it model.Iterator, max int) ([]ev, bool) {
+	r, ended, _ := drainItR(it, max, false)
+	return r, ended
+}
+
+func getEvR(it model.Iterator, retry bool) (ev, string) {
+	e, st := getEv(it)
+	if st == "err" && retry {
+		return getEv(it)
+	}
+	return e, st
+}
+
+// drainItR: as drainIt; retry = a Get that fails with a non-EOF error is repeated once; byErr = an error ended the read
+func drainItR(it model.Iterator, max int, retry bool) (r []ev, ended bool, byErr bool) {
+	for i := 0; i <= max; i++ {
+		e, st := getEvR(it, retry)
+		if st != "" {
+			return r, true, st == "err"
+		}
+		r = append(r, e)
+		it.Next(ctx)
+	}
+	return r, false, false
+}
+
+func drainItOld(it model.Iterator, max int) ([]ev, bool) {
 	var r []ev
 	for i := 0; i <= max; i++ {
 		e, st := getEv(it)
@@ -372,6 +428,24 @@ func runOpsG(it model.Iterator, root model.Iterator, ops []string, total int, le
 			continue
 		}
 		switch op {
+		case "G":
+			e, st := getEvR(it, true)
+			if st != "" {
+				toks = append(toks, st+suffix(root))
+			} else {
+				toks = append(toks, e.String()+suffix(root))
+			}
+		case "D":
+			es, ended, byErr := drainItR(it, total+1, true)
+			drains = append(drains, es)
+			s := evsString(es)
+			if byErr {
+				s += "!err"
+			}
+			if !ended {
+				s += "...NO-EOF"
+			}
+			toks = append(toks, s+suffix(root))
 		case "g":
 			e, st := getEv(it)
 			if st != "" {
@@ -389,9 +463,12 @@ func runOpsG(it model.Iterator, root model.Iterator, ops []string, total int, le
 			it.SetBackward(op == "b1")
 			toks = append(toks, "."+suffix(root))
 		case "d":
-			es, ended := drainIt(it, total+1)
+			es, ended, byErr := drainItR(it, total+1, false)
 			drains = append(drains, es)
 			s := evsString(es)
+			if byErr {
+				s += "!err"
+			}
 			if !ended {
 				s += "...NO-EOF"
 			}
@@ -737,7 +814,7 @@ func runMixerCase0(c mixerCase, sec *vh.Section) pending {
 	var it model.Iterator
 	var toks []string
 	var drains [][]ev
-	if hasAppend(c.Ops) {
+	if hasAppend(c.Ops) || c.Tree.hasBad() {
 		var gl []*growIt
 		it = growTree(c.Tree, &gl)
 		toks, drains = runOpsG(it, it, c.Ops, totalRecs(ls)+len(c.Ops), gl)
@@ -775,7 +852,7 @@ func runMixerCase0(c mixerCase, sec *vh.Section) pending {
 			res.Mismatch(vh.Mismatch{Section: "mixer", Function: "mergeSpec tie rule (" + what + ")", Input: c, Impl: evsString(got), Model: evsString(want)})
 		}
 	}
-	if len(c.Ops) >= 1 && c.Ops[0] == "d" && len(drains) >= 1 {
+	if len(c.Ops) >= 1 && c.Ops[0] == "d" && len(drains) >= 1 && !c.Tree.hasBad() {
 		specCheck(drains[0], false, "forward read of a fresh tree")
 		if len(c.Ops) >= 3 && c.Ops[1] == "b1" && c.Ops[2] == "d" && len(drains) >= 2 {
 			specCheck(drains[1], true, "backward read from the end")
@@ -791,7 +868,97 @@ func runMixerCase0(c mixerCase, sec *vh.Section) pending {
 			res.Mismatch(vh.Mismatch{Section: "mixer", Function: "mergeSpec tie rule (" + what + ")", Input: c, Impl: evsString(got), Model: evsString(want)})
 		}
 	}
-	return pending{"mixer", "model.Mixer Get/Next/Release/SetBackward", c, "mix " + c.Tree.line() + " | " + strings.Join(c.Ops, " "), impl}
+	cmd := "mix "
+	if c.Tree.hasBad() {
+		cmd = "mixe "
+		errOracle(c, ls, toks)
+	}
+	return pending{"mixer", "model.Mixer Get/Next/Release/SetBackward", c, cmd + c.Tree.line() + " | " + strings.Join(c.Ops, " "), impl}
+}
+
+// errOracle — "the query fails instead of silently reading a subset", for sources with records that cannot be read:
+// (a) permanently unreadable: once a Get of the tree has answered a non-EOF error, every later Get (Next and Release in between
+// change nothing: the source still stands on the record) must answer the error too — never an event or io.EOF made of the other
+// sources only — until the direction is switched; (b) unreadable once: a reader that repeats a failed Get (ops G, D) must get
+// everything: the union of all sources, each in its order.
+func errOracle(c mixerCase, ls []leafSpec, toks []string) {
+	once := false
+	for _, l := range ls {
+		if len(l.Bad) > 0 && l.Once {
+			once = true
+		}
+	}
+	strip := func(t string) string {
+		if k := strings.IndexByte(t, '/'); k >= 0 {
+			t = t[:k]
+		}
+		return t
+	}
+	if !once {
+		failed := false
+		for i, op := range c.Ops {
+			if i >= len(toks) {
+				break
+			}
+			t := strip(toks[i])
+			switch op {
+			case "b1", "b0":
+				failed = false
+			case "g", "G":
+				if failed && t != "err" {
+					res.SpecFail(vh.SpecFailure{Section: "mixer", Kind: "silent-subset-after-error", Input: c, Impl: strings.Join(toks, " "), Spec: "err",
+						What: fmt.Sprintf("a source failed with a non-EOF error and stands on the unreadable record, but a later Get (op %d) answers %q from the other sources instead of failing", i, t)})
+					return
+				}
+				if t == "err" {
+					failed = true
+				}
+			case "d", "D":
+				if failed && !strings.HasSuffix(t, "!err") || failed && !strings.HasPrefix(t, "-") {
+					res.SpecFail(vh.SpecFailure{Section: "mixer", Kind: "silent-subset-after-error", Input: c, Impl: strings.Join(toks, " "), Spec: "-!err",
+						What: fmt.Sprintf("a source failed with a non-EOF error and stands on the unreadable record, but the read goes on (op %d: %q) with the other sources", i, t)})
+					return
+				}
+				if strings.HasSuffix(t, "!err") {
+					failed = true
+				}
+			}
+		}
+		return
+	}
+	// once: scripts (G n)^k D
+	var got []ev
+	for i, op := range c.Ops {
+		if i >= len(toks) {
+			return
+		}
+		switch op {
+		case "G":
+			if e := parseTok(toks[i]); e != nil {
+				got = append(got, *e)
+			}
+		case "n":
+		case "D":
+			t := strip(toks[i])
+			if t != "-" {
+				for _, x := range strings.Split(strings.TrimSuffix(t, "!err"), ",") {
+					if e := parseTok(x); e != nil {
+						got = append(got, *e)
+					}
+				}
+			}
+		default:
+			return
+		}
+	}
+	alone := map[int][]ev{}
+	for _, l := range ls {
+		alone[l.Tags] = l.events(false)
+	}
+	if kind, w := checkProperty(got, alone, false); kind != "" {
+		res.SpecFail(vh.SpecFailure{Section: "mixer", Kind: kind, Input: c, Impl: evsString(got), Spec: "union of all sources",
+			What: "a record failed to read once and the reader repeated the Get: " + w})
+	}
 }
 
 func sectionMixer(rng *vh.Rng, corpus []mixerCase) {
@@ -825,6 +992,29 @@ func sectionMixer(rng *vh.Rng, corpus []mixerCase) {
 			for _, s := range fixedScripts {
 				ps = append(ps, runMixerCase(mixerCase{t, s}, sec))
 				res.Dist(sec, "exhaustive-2x2")
+			}
+			// every record of either source unreadable (permanently: fixed scripts; once: read with retries)
+			for who := 0; who < 2; who++ {
+				src := [][]int64{xa, xb}[who]
+				for bi := range src {
+					for _, once := range []bool{false, true} {
+						ea, eb := a, b
+						if who == 0 {
+							ea.Bad, ea.Once = []int{bi}, once
+						} else {
+							eb.Bad, eb.Once = []int{bi}, once
+						}
+						et := &treeSpec{A: &treeSpec{Leaf: &ea}, B: &treeSpec{Leaf: &eb}}
+						scripts := [][]string{{"g", "n", "g", "n", "g", "g", "n", "g", "r", "g", "d"}, {"d", "g", "n", "d", "r", "d"}, {"g", "r", "g", "n", "n", "g", "d", "b1", "d", "b0", "d"}}
+						if once {
+							scripts = [][]string{{"D"}, {"G", "n", "D"}, {"G", "n", "G", "n", "D"}}
+						}
+						for _, sc := range scripts {
+							ps = append(ps, runMixerCase(mixerCase{et, sc}, sec))
+							res.Dist(sec, "exhaustive-2x2-unreadable-record")
+						}
+					}
+				}
 			}
 			// every point of the stream as a page boundary, then an append to either source (later than everything stored)
 			for k := 0; k <= len(xa)+len(xb); k++ {
@@ -866,6 +1056,33 @@ func sectionMixer(rng *vh.Rng, corpus []mixerCase) {
 			j := rng.Range(-1, k)
 			ps = append(ps, runMixerCase(mixerCase{t, midScript(k, j, rng.Chance(1, 3))}, sec))
 			res.Dist(sec, "midstream-switch")
+		}
+		if tot := totalRecs(ls); tot > 0 {
+			// one source gets a record that cannot be read (permanently, or once)
+			els := append([]leafSpec{}, ls...)
+			for tries := 0; tries < 10; tries++ {
+				j := rng.Intn(len(els))
+				if len(els[j].Recs) > 0 {
+					els[j].Bad = []int{rng.Intn(len(els[j].Recs))}
+					els[j].Once = rng.Chance(1, 3)
+					et := genShape(rng, els)
+					var ops []string
+					if els[j].Once {
+						for x := rng.Range(0, tot); x > 0; x-- {
+							ops = append(ops, "G", "n")
+						}
+						ops = append(ops, "D")
+					} else {
+						for x := rng.Range(4, 24); x > 0; x-- {
+							ops = append(ops, rng.PickS([]string{"g", "g", "g", "n", "n", "r", "d", "b1", "b0"}))
+						}
+						ops = append(ops, "g", "n", "g", "r", "g", "d")
+					}
+					ps = append(ps, runMixerCase(mixerCase{et, ops}, sec))
+					res.Dist(sec, "unreadable-record")
+					break
+				}
+			}
 		}
 		if shape != "unsorted" {
 			if aps := genAppends(rng, ls); aps != nil {
@@ -1473,6 +1690,55 @@ func runSystemCase(srv *lrsrv.Srv, c systemCase, sec *vh.Section, limit int) (ps
 	// nothing may stay acquired after the queries (failed or not)
 	if h := held(srv, tagsOf); h != 0 {
 		fail("leak", fmt.Sprintf("%d of %d partitions are still acquired after the queries ended (n=%d, limit=%d)", h, c.N, c.N, limit), fmt.Sprint(h), "0")
+	}
+	// a HELD merged cursor (WaitTimeout > 0 keeps it in the provider between requests): page 1 and page 2 end by their limits,
+	// then page 2 is asked for again (a retry of a lost answer): same ReqId, the older position. ApplyState re-positions the
+	// journal iterators under the live mixer tree; everything delivered from that position must be the union of what the
+	// partitions hold behind page 1, each in stored order, time-ordered when every partition is. (Last step of the case: the
+	// held cursor keeps its partitions acquired until the provider drops it.)
+	if c.N >= 2 && c.N < limit && total >= 4 {
+		k := 1 + (total*5+c.N)%(total-3)
+		r1, err := srv.Querier.Query(ctx, &api.QueryRequest{Query: q, Limit: k, WaitTimeout: 1})
+		if (err == nil || err == io.EOF) && r1 != nil && len(r1.Events) == k {
+			nq := r1.NextQueryRequest
+			nq.Limit = (total - k) / 2
+			if nq.Limit < 1 {
+				nq.Limit = 1
+			}
+			r2, err2 := srv.Querier.Query(ctx, &nq)
+			if (err2 == nil || err2 == io.EOF) && r2 != nil && len(r2.Events) == nq.Limit {
+				rq := r1.NextQueryRequest // ReqId of the held cursor, position after page 1
+				rq.Limit = 10000
+				r3, err3 := srv.Querier.Query(ctx, &rq)
+				in := map[string]interface{}{"case": c, "page1": k, "page2": nq.Limit}
+				if !(err3 == nil || err3 == io.EOF) || r3 == nil {
+					res.SpecFail(vh.SpecFailure{Section: "system", Kind: "query-failed", Input: in, Impl: fmt.Sprint(err3), Spec: "the events behind page 1",
+						What: "asking a held merged cursor again for a page it has served (same ReqId, older position) failed"})
+				} else {
+					var got []ev
+					for _, e := range r3.Events {
+						got = append(got, sysEv(e.Timestamp, e.Message, e.Tags, lineToPart))
+					}
+					cnt := map[int]int{}
+					for _, e := range r1.Events {
+						cnt[sysEv(e.Timestamp, e.Message, e.Tags, lineToPart).Tags]++
+					}
+					alone := map[int][]ev{}
+					for i := 0; i < c.N; i++ {
+						x := cnt[i]
+						if x > len(written[i]) {
+							x = len(written[i])
+						}
+						alone[i] = append([]ev{}, written[i][x:]...)
+					}
+					if kind, w := checkProperty(got, alone, false); kind != "" {
+						res.SpecFail(vh.SpecFailure{Section: "system", Kind: kind, Input: in, Impl: evsString(got), Spec: "union of what the partitions hold behind page 1",
+							What: fmt.Sprintf("held merged cursor over %d partitions, pages of %d and %d events, then the second page requested again with its older position: %s", c.N, k, nq.Limit, w)})
+					}
+					res.Dist(sec, "held-cursor-older-position")
+				}
+			}
+		}
 	}
 	return
 }
